@@ -383,7 +383,9 @@ def replay(iset, memarch, nregions, inputs, ob):
                 if s_unpred or s_undef:
                     lines.append('spec: architecturally %s for this input' % ('UNPREDICTABLE' if s_unpred else 'UNDEFINED'))
                     continue
-                diff = {k: (_h(final[k]), _h(exp[k])) for k in final if k not in STEP.SCRATCH and final[k] != exp.get(k)}
+                unk = exp.get('__unkmask__', {})
+                diff = {k: (_h(final[k]), _h(exp[k])) for k in final if k not in STEP.SCRATCH and
+                        (final[k] != exp.get(k) if not unk.get(k) else (final[k] & ~unk[k]) != (exp[k] & ~unk[k]))}
                 lines.append('leaf differences (real, spec): %s' % diff)
                 rw = sorted((w[0], w[1], w[2]) for w in sc.writes)
                 sw = sorted(nm.writes)
